@@ -118,7 +118,10 @@ func appendOracle(p *run.Part, check string, w *seqx.World, pre *seqx.Pre, op se
 	if pc <= 0 {
 		pc = 1
 	}
-	bound := bits.Len(uint(pc)) - 1 + 2
+	// floor(log2(pointer count)) entries at power-of-two distances beyond the nearest one (which is a predecessor),
+	// plus the oldest known entry when the log is shorter than the pointer count: the count depends on the
+	// requested pointer count only, never on how many heads or entries the log has
+	bound := bits.Len(uint(pc)) - 1 + 1
 	if len(refs) > bound {
 		p.Violate(check, "C04:refs-not-logarithmic", fmt.Sprintf("after %s: %d references for pointer count %d (bound %d)", path, len(refs), pc, bound), c)
 	}
@@ -139,8 +142,23 @@ func uniq(a []string) []string {
 	return r
 }
 
+// eight replicas over the four writers: the only way to a log with more heads than a small pointer count
+var cfgMany8 = &seqx.Config{Name: "many8", Writers: []int{0, 1, 2, 3, 0, 1, 2, 3}, PC: 1}
+
+func heads8() []seqx.Op {
+	var p []seqx.Op
+	for i := 0; i < 8; i++ {
+		p = append(p, chain(i, i%4+1)...) // branches of different lengths: the heads are up to three ticks apart
+	}
+	for i := 1; i < 8; i++ {
+		p = append(p, seqx.Op{K: "join", A: 0, B: i})
+	}
+	return p
+}
+
 var c04Prefixes = map[string][]seqx.Op{
-	"+setid": append(chain(0, 3), seqx.Op{K: "join", A: 2, B: 0}, seqx.Op{K: "app", A: 2}, seqx.Op{K: "join", A: 0, B: 2}, seqx.Op{K: "setid", A: 0, B: 1}),
+	"+heads8": heads8(),
+	"+setid":  append(chain(0, 3), seqx.Op{K: "join", A: 2, B: 0}, seqx.Op{K: "app", A: 2}, seqx.Op{K: "join", A: 0, B: 2}, seqx.Op{K: "setid", A: 0, B: 1}),
 }
 
 func c04Searches(p *run.Part, tier string) []*seqx.Search {
@@ -174,13 +192,15 @@ func c04Searches(p *run.Part, tier string) []*seqx.Search {
 		mk(CfgDef3, "+chain20", Prefixes["+chain20"], rich3, pd),
 		mk(CfgDef3, "+fork12", Prefixes["+fork12"], rich3, pd),
 		mk(CfgDef3, "+setid", c04Prefixes["+setid"], rich3, pd+1),
+		mk(cfgMany8, "+heads8", c04Prefixes["+heads8"], []seqx.Op{{K: "app", A: 0, N: 1}, {K: "app", A: 0, N: 2}, {K: "app", A: 0, N: 4}, {K: "app", A: 0, N: 16},
+			{K: "app", A: 1}, {K: "join", A: 1, B: 0}, {K: "join", A: 0, B: 1}}, pd+1),
 	}
 }
 
 func init() {
 	register(&Check{ID: "C04", Run: func(p *run.Part, tier string) {
 		p.Rule = "states are distinct canonical keys; non-trivial = appends that produced at least one skip reference (distinct entries)"
-		p.Assume("pointer counts {1,2,4(default),8,16,64}; replicas <= 3; depth as in extra.searches; long chains only through the macro prefixes (20-chain, 12+12 fork)")
+		p.Assume("pointer counts {1,2,4(default),8,16,64}; replicas <= 3 (8 over four writers in the eight-heads start state); depth as in extra.searches; long chains only through the macro prefixes (20-chain, 12+12 fork)")
 		runSearches(p, c04Searches(p, tier))
 	}, Replay: seqReplay(c04Searches)})
 }
